@@ -25,15 +25,13 @@ def random_case(rng, coarse=None, max_nodes=10):
     names = rng.sample(sorted(lib), k)
     n = rng.randint(1, max_nodes)
     ast = G.random_ast(rng, n, max_depth=2, p_branch=rng.choice([0.0, 0.3]), p_bond=rng.choice([0.0, 0.2]),
-                       n_rings=rng.choice([0, 0, 1]), p_mult_node=rng.choice([0.0, 0.3]), names=names,
+                       n_rings=rng.choice([0, 0, 1]), p_mult_node=rng.choice([0.0, 0.3]), names=names, p_trailing_branch=rng.choice([0, 0.2]),
                        orders=(1, 1, 2, 0, 3), max_mult=4)
     try:
         G.denote(ast)
     except G.RefSyntaxError:
         return None
     feats = G.features(ast)
-    if feats & {'double_close', 'bond_after_node_mult'}:
-        return None
     legacy = rng.random() < 0.6
     used = sorted({e['name'] for e, _, _, _ in G._flat(ast)})
     frag = '{' + ','.join('#%s=%s' % (nm, lib[nm]) for nm in names) + '}'
